@@ -430,7 +430,7 @@ func TestVerifC09Random(t *testing.T) {
 		rp := newC09Rep(c)
 		data := c09Bytes(rng, n)
 		cfgCls := c09CfgClass(q, n)
-		rejected := 0
+		rejected, accepted := 0, 0
 		for k := 0; k < d; k++ {
 			qq := q // the builder is used through a pointer; give it a private copy
 			viaBuild := base == 0 && k%4 == 0
@@ -452,12 +452,16 @@ func TestVerifC09Random(t *testing.T) {
 				}
 				continue
 			}
+			accepted++
 			c09CountStats(c, st)
 			c.Count("random_draws", 1)
 			c.Eval(fmt.Sprintf("rf %s %s %s", oc, cfgCls, st.fp()))
 		}
-		if rejected > 0 && rejected < d && rejected < 60 {
-			c.Count("configs_rejected_only_for_some_draws", 1)
+		if rejected > 0 && accepted > 0 {
+			// the builders validate parameters only; whether a parameter set can be framed does
+			// not depend on the draw, so a set that was framed once must not be refused next time
+			rp.viol("C09|randomframes|draw-dependent-error", fmt.Sprintf("the same configuration and data were framed %d times and refused with an error %d times", accepted, rejected),
+				map[string]any{"cfg": q, "len": n, "base": base})
 		}
 		c.Count("random_configs", 1)
 		c.End()
@@ -516,6 +520,7 @@ func TestVerifC09Random(t *testing.T) {
 		_ = allValid
 		rp := newC09Rep(c)
 		data := c09Bytes(rng, n)
+		mdOK, mdRej := 0, 0
 		for k := 0; k < d; k++ {
 			var payloads [][]byte
 			off := 0
@@ -560,9 +565,18 @@ func TestVerifC09Random(t *testing.T) {
 			default:
 				c.Eval("md viol")
 			}
-			if failedAt == 0 && k >= 20 {
+			if failedAt >= 0 {
+				mdRej++
+			} else if len(payloads) == len(sizes) {
+				mdOK++
+			}
+			if failedAt == 0 && k >= 20 && mdOK == 0 {
 				break
 			}
+		}
+		if mdOK > 0 && mdRej > 0 {
+			rp.viol("C09|multidgram|draw-dependent-error", fmt.Sprintf("the same configuration and data were framed %d times and refused with an error %d times", mdOK, mdRej),
+				map[string]any{"perDatagram": m.PerDatagram, "len": n, "slices": sizes})
 		}
 		c.End()
 	}
@@ -861,7 +875,7 @@ func TestVerifC09Flight(t *testing.T) {
 			if n > 5000 {
 				d = 12
 			}
-			rej := 0
+			rej, acc := 0, 0
 			for j := 0; j < d; j++ {
 				oc := c09EvalBuildFlight(c, rp, "randomflight", rf, p, data, j)
 				c.Eval("rff " + oc)
@@ -870,7 +884,13 @@ func TestVerifC09Flight(t *testing.T) {
 					if rej == j+1 && rej >= 8 {
 						break
 					}
+				} else if oc != "viol" {
+					acc++
 				}
+			}
+			if rej > 0 && acc > 0 {
+				rp.viol("C09|randomflight|draw-dependent-error", fmt.Sprintf("the same plan and data were framed %d times and refused with an error %d times", acc, rej),
+					map[string]any{"builder": c09FlightDesc(rf), "plan": p})
 			}
 			c09Call(rp, "randomflight", "|build-fallback", data, 0, false, func() map[string]any {
 				return map[string]any{"builder": c09FlightDesc(rf), "via": "Build"}
@@ -917,9 +937,20 @@ func TestVerifC09Flight(t *testing.T) {
 		}
 		rp := newC09Rep(c)
 		data := c09Bytes(rng, n)
+		rej, acc := 0, 0
 		for j := 0; j < d; j++ {
-			c.Eval("rff-deep " + c09EvalBuildFlight(c, rp, "randomflight", rf, p, data, j))
+			oc := c09EvalBuildFlight(c, rp, "randomflight", rf, p, data, j)
+			c.Eval("rff-deep " + oc)
 			c.Count("random_flight_draws", 1)
+			if oc == "rejected" {
+				rej++
+			} else if oc != "viol" {
+				acc++
+			}
+		}
+		if rej > 0 && acc > 0 {
+			rp.viol("C09|randomflight|draw-dependent-error", fmt.Sprintf("the same plan and data were framed %d times and refused with an error %d times", acc, rej),
+				map[string]any{"builder": c09FlightDesc(rf), "plan": p})
 		}
 		c.End()
 	}
